@@ -1,5 +1,11 @@
 ------------------------------ MODULE MC_Core ------------------------------
+(* Small universe for PTCore: H (constructor isotope D = 2, mass table {1, 2}, charge 1) and one
+   ordinary element (one mass-table isotope, one addable isotope, one charge); one private table.
+   MC_Core.cfg checks it exhaustively; the C08 driver runs it with -simulate and replays every
+   printed behaviour (call by call, with the expected heap after each call) in the real code. *)
 EXTENDS PTCore
-MCIso(z) == CASE z = 1 -> {2} [] OTHER -> {}
+MCCtor(z) == CASE z = 1 -> {2} [] OTHER -> {}
+MCIso(z) == CASE z = 1 -> {1, 2} [] z = 8 -> {16} [] OTHER -> {}
+MCExtra(z) == CASE z = 8 -> {99} [] OTHER -> {}
 MCIon(z) == CASE z = 1 -> {1} [] z = 8 -> {-2} [] OTHER -> {}
 =============================================================================
